@@ -210,8 +210,10 @@ impl<'a> Gen<'a> {
                 style,
             });
         }
-        let style = match self.rng.below(if in_table { 4 } else { 8 }) {
+        let style = match self.rng.below(if in_table { 5 } else { 8 }) {
             0..=3 => LStyle::Inline,
+            // a bare wiki link is the only other link form that fits into a table cell (a piped one holds a "|")
+            4 if in_table => LStyle::Wiki,
             4 => LStyle::RefDef,
             5 => LStyle::Wiki,
             _ if self.p.piped_wiki => LStyle::WikiPiped,
@@ -276,9 +278,7 @@ impl<'a> Gen<'a> {
                     Inl::Strong(vec![a, b, c])
                 }
                 12..=14 => {
-                    if in_table && !self.p.has("table-rich-cells") {
-                        self.word()
-                    } else {
+                    {
                         let a = self.words.next(self.rng, false);
                         let b = self.words.next(self.rng, false);
                         Inl::Code(match self.rng.below(4) {
@@ -291,9 +291,7 @@ impl<'a> Gen<'a> {
                 }
                 15..=19 => self.link(in_table).unwrap_or_else(|| self.word()),
                 20 => {
-                    if in_table && !self.p.has("table-rich-cells") {
-                        self.word()
-                    } else {
+                    {
                         let alt = self.plain_words(1, 2);
                         let name = self.words.next(self.rng, false);
                         Inl::Image {
